@@ -1214,3 +1214,11 @@ package mcp
 //@   before call send#1 assert[C05 queued-on-the-session-registered-under-the-addressed-id] lastloadkey == asany(sessionID) && asany(session) == lastloadval
 //@ func SSEServer.SendRequest
 //@   before call send#1 assert[C05 queued-on-the-session-registered-under-the-addressed-id] lastloadkey == asany(sessionID) && asany(session) == lastloadval
+//@
+// C10 — NotificationParams on the wire: the object handed to encoding/json has exactly the
+// additional fields (values unchanged) plus "_meta" (the Meta map when it is not empty).
+//@ func NotificationParams.MarshalJSON
+//@   loop 1 invariant[C10 wire-object-holds-only-given-fields-and-all-visited-ones] (forall k string :: (k in m) && k != "_meta" ==> (k in p.AdditionalFields) && m[k] == p.AdditionalFields[k]) && (forall k string :: visited(1, k) && k != "_meta" ==> (k in m) && m[k] == p.AdditionalFields[k]) && (len(p.Meta) > 0 ==> ("_meta" in m) && m["_meta"] == asany(p.Meta))
+//@   before call Marshal#1 assert[C10 every-additional-field-is-on-the-wire-unchanged] forall k string :: (k in p.AdditionalFields) && k != "_meta" ==> (k in arg0.(map[string]interface{})) && arg0.(map[string]interface{})[k] == p.AdditionalFields[k]
+//@   before call Marshal#1 assert[C10 nothing-else-is-on-the-wire] forall k string :: (k in arg0.(map[string]interface{})) && k != "_meta" ==> (k in p.AdditionalFields)
+//@   before call Marshal#1 assert[C10 meta-is-on-the-wire-when-present] len(p.Meta) > 0 ==> ("_meta" in arg0.(map[string]interface{})) && arg0.(map[string]interface{})["_meta"] == asany(p.Meta)
